@@ -270,8 +270,26 @@ def s_local_memory_named_like_callers(rng, nval):
     return _mk(prog, "local_memory_named_like_callers", rng, nval, edges={"en": [0, 1]}, memory=True)
 
 
+def s_latch_in_function(rng, nval):
+    """A latch written inside a function whose set/reset compare a Signal parameter; the caller has a different
+    signal under the parameter's name (declared before the call) and passes another one."""
+    types = gen.Types(rng)
+    prog = [["input", "lv", types.fresh(), rng.randint(0, 9)], ["input", "a", types.fresh(), rng.randint(0, 9)]]
+    t = types.fresh()
+    lo, hi = rng.randint(0, 3), rng.randint(4, 8)
+    val = rng.choice([["n", 1], ["n", rng.randint(2, 9)]])
+    body = [["mem", "m", t],
+            ["latch", "m", val, ["c", "<", ["v", "lv"], ["n", lo]], ["c", ">=", ["v", "lv"], ["n", hi]], rng.choice(["sr", "rs"])]]
+    prog.append(["func", "lt", [["Signal", "lv"]], body, ["r", "m"]])
+    prog.append(["sig", "q", ["p", ["call", "lt", [["v", "a"]]], types.fresh()]])
+    if rng.random() < 0.5:
+        prog.append(["sig", "other", ["p", ["b", "+", ["v", "lv"], ["n", 1]], types.fresh()]])
+    return _mk(prog, "latch_in_function_param_named_like_caller_signal", rng, nval,
+               edges={"a": list(range(-1, 10)), "lv": list(range(-1, 10))}, memory=True)
+
+
 STRATA = [(s_scalar, 4), (s_untyped_result, 2), (s_shadow, 3), (s_entity_param, 2), (s_entity_return, 2),
-          (s_local_memory, 2), (s_nested, 3), (s_in_loop, 2), (s_int_clash, 3), (s_iter_clash, 2), (s_sigparam_clash, 2), (s_param_shadowed_by_iterator, 2), (s_param_projected, 2), (s_returned_local_read_in_callee, 2), (s_local_memory_named_like_callers, 2)]
+          (s_local_memory, 2), (s_nested, 3), (s_in_loop, 2), (s_int_clash, 3), (s_iter_clash, 2), (s_sigparam_clash, 2), (s_param_shadowed_by_iterator, 2), (s_param_projected, 2), (s_returned_local_read_in_callee, 2), (s_local_memory_named_like_callers, 2), (s_latch_in_function, 2)]
 
 
 def gen_cases(tier, seed):
